@@ -135,3 +135,25 @@ contract('IO.recv_reply', module=M, props=['C17', 'C10'],
 bounded(['C17', 'C09', 'C05', 'C10'], 'bounded/regex_contracts.py',
         'assumed semantic contracts of io.reply_line_pattern / line_pattern (at positions), datareader.fullline_pattern '
         'and eod_pattern compared with the real compiled patterns (all strings <= 6 over small alphabets)')
+
+# ---------------------------------------------------------------------------- IO.recv_line (C09: command path)
+# Whatever the segmentation (buffered_recv delivers an arbitrary next piece), recv_line returns the next LF-terminated
+# line of the not-yet-consumed stream without its terminator, consumes exactly that line, and leaves every later byte
+# (a pipelined successor) in recv_buffer: the result is a function of the stream, not of how it was cut.
+contract('IO.recv_line#stream', qual='IO.recv_line', module=M, props=['C09', 'C17'],
+         params={'self': 'IO'}, returns='Bytes',
+         requires=['INV_IO(self)', 'in_timeout_scope()'],
+         ghost_after={'self.recv_buffer = input[match.end(0):]': ['self.consumed = self.fetched - len(self.recv_buffer)']},
+         ensures=['INV_IO(self)',
+                  # the line starts where consumption stood and ends at the FIRST LF after that point
+                  'str_index(self.stream, b"\\n", old(self.consumed)) >= old(self.consumed)',
+                  'self.consumed == str_index(self.stream, b"\\n", old(self.consumed)) + 1',
+                  'result == strip_one_cr(substr(self.stream, old(self.consumed), self.consumed - 1 - old(self.consumed)))'],
+         raises={'ConnectionLost': ['INV_IO(self)', 'self.consumed == old(self.consumed)'],
+                 'Timeout': ['INV_IO(self)', 'self.consumed == old(self.consumed)'],
+                 'OSError': ['INV_IO(self)', 'self.consumed == old(self.consumed)']},
+         modifies=['self.recv_buffer', 'self.fetched', 'self.consumed', 'fresh'],
+         loops={0: dict(modifies=['self.recv_buffer', 'self.fetched', 'fresh'],
+                        inv=['INV_IO(self)', 'self.consumed == old(self.consumed)',
+                             # nothing that was scanned and rejected contained a LF
+                             'self.fetched >= old(self.fetched)'])})
